@@ -144,3 +144,82 @@ Theorem C12_objectdb_roundtrip :
   forall d, wf_db d = true -> exists d', save_db isdig d = Some d' /\ load_db isdig d' = Some d.
 Proof. exact objectdb_roundtrip. Qed.
 Print Assumptions C12_objectdb_roundtrip.
+
+(* ------------------------------------------------------------------------------------------------
+   Ignored resources inside recorded changes. Whether a resource is ignored decides only whether
+   History.do records a change at all (interesting); what is saved never depends on it. *)
+
+(* The saved data has exactly one leaf entry per primitive change of the tree, in execution order —
+   in particular for the children that work on ignored resources — in either data format. *)
+Theorem C12_saved_data_keeps_every_leaf :
+  forall keep c,
+    data_leaves (to_data keep c) = map (to_data keep) (leaves c) /\
+    length (data_leaves (to_data keep c)) = length (leaves c).
+Proof. exact saved_data_keeps_every_leaf. Qed.
+Print Assumptions C12_saved_data_keeps_every_leaf.
+
+(* For every ignore predicate, the reloaded change has the same primitive changes, the same ones on
+   ignored resources, the same changed resources, and is recorded by History.do iff the original is. *)
+Theorem C12_reload_keeps_every_leaf :
+  forall (ign : text -> bool) c c',
+    of_data true (to_data true c) = Some c' ->
+    leaves c' = leaves c /\ ignored_leaves ign c' = ignored_leaves ign c /\
+    changed_paths c' = changed_paths c /\ interesting ign c' = interesting ign c.
+Proof. exact reload_keeps_every_leaf. Qed.
+Print Assumptions C12_reload_keeps_every_leaf.
+
+(* A change History.do records (some changed resource is not ignored) is, after close and reopen, the
+   last entry of the undo list and the same change, whatever else it does to ignored resources; the
+   redo list is empty as History.do left it. *)
+Theorem C12_recorded_change_reloads_whole :
+  forall (ign : text -> bool) limit h c,
+    interesting ign c = true -> 0 < limit ->
+    exists pre, reopen true (close true limit (hist_do ign limit h c)) =
+                Some {| undo_list := pre ++ [c]; redo_list := [] |}.
+Proof. exact recorded_change_reloads_whole. Qed.
+Print Assumptions C12_recorded_change_reloads_whole.
+
+(* ... and a change to ignored resources only is not part of the history the project promises to keep. *)
+Theorem C12_ignored_only_change_not_recorded :
+  forall (ign : text -> bool) limit h c,
+    interesting ign c = false ->
+    hist_do ign limit h c = {| undo_list := undo_list h; redo_list := [] |}.
+Proof. exact ignored_only_change_not_recorded. Qed.
+Print Assumptions C12_ignored_only_change_not_recorded.
+
+(* Non-vacuity: "save with backup" — one set writes the old text to the ignored a.py~ and the new text to
+   a.py; with a.py~ ignored it is mixed, is recorded, and comes back whole (2 children, the first one on
+   the ignored resource) behind an older entry, with limit 2. *)
+Example C12_example_mixed_set :
+  let bak := [97%N; 46%N; 112%N; 121%N; 126%N] in
+  let src := [97%N; 46%N; 112%N; 121%N] in
+  let ign := ign_of [bak] in
+  let c := CSet [115%N] [CContents bak [49%N] None; CContents src [50%N] (Some [49%N])] (Some 7%N) in
+  let h := {| undo_list := [CCreate src RFile; CCreate [100%N] RFolder]; redo_list := [CRemove [100%N] RFolder] |} in
+  mixed ign c = true /\ length (ignored_leaves ign c) = 1 /\
+  interesting ign (CContents bak [49%N] None) = false /\
+  reopen true (close true 2 (hist_do ign 2 h c)) = Some {| undo_list := [CCreate [100%N] RFolder; c]; redo_list := [] |}.
+Proof. exact (conj eq_refl (conj eq_refl (conj eq_refl eq_refl))). Qed.
+Print Assumptions C12_example_mixed_set.
+
+(* The scope that exists but holds no facts (FileInfo.create_scope with nothing recorded yet): its saved
+   state is a value (never "no state") and __setstate__ restores two empty tables, for every digit
+   predicate. C12_scopeinfo_state covers it too when the predicate contains the ASCII digits. *)
+Theorem C12_scopeinfo_empty_state :
+  forall (isdig : N -> bool),
+    exists s, getstate isdig (PDict []) (PDict []) = Some s /\
+              setstate isdig s = Some (PDict [], PDict []).
+Proof. exact scopeinfo_empty_state. Qed.
+Print Assumptions C12_scopeinfo_empty_state.
+
+(* Non-vacuity of C12_objectdb_roundtrip on the shapes met at close: a file with a filled scope and an
+   empty scope, and a file entry without any scope. *)
+Example C12_example_objectdb_empty_scope :
+  let str := PTuple [PStr [98%N]; PStr [115%N]] in
+  let d := [ ([109%N], [ ([102%N], (PDict [(PTuple [str], str)], PDict [(PStr [120%N], PList [str])]));
+                          ([103%N], (PDict [], PDict [])) ]);
+             ([110%N], []) ] in
+  wf_db d = true /\
+  exists d', save_db is_ascii_digit d = Some d' /\ load_db is_ascii_digit d' = Some d.
+Proof. exact (conj eq_refl (ex_intro _ _ (conj eq_refl eq_refl))). Qed.
+Print Assumptions C12_example_objectdb_empty_scope.
